@@ -89,6 +89,7 @@ def check(cx):
         'R20.4 every command-line option overrides its own configuration field',
         'R20.5 every documented setting is read by the code path that implements it; every MainConfig field has a reader outside config.rs',
         'R20.7 max_joins governs JOIN: compared as (running number of joined channels) < max_joins before every admission, 405 otherwise (shared rule with C07)',
+        'R20.8 (imported) max_connections governs admission: one slot per attempt, compared as previous < max, given back on refusal, released once on drop (C19 R19.4)',
         'R20.6 (thorough, TLS builds) both accept loops hand the stream to the same user_state_process; the only behavioural read of the transport is is_secure() -> 671 in WHOIS',
     ]
     ck.does_not_decide += ['cryptographic exactness of "accepting exactly the password"', 'transcript equality of plain vs TLS sessions',
@@ -259,6 +260,10 @@ def check(cx):
     mr = {r['variant']: r for e, r in replies(wm)}
     if mr.get('RplMotd372', {}).get('fields', {}).get('motd') != field(CONFIG, 'motd'):
         r5.violation('process_motd|motd-field', 'MOTD does not show the configured text', loc=fm)
+
+    # ---------------------------------------------------------------- R20.8 max_connections (imported)
+    r8 = cx.rule('R20.8', 'max_connections governs admission (imported)', floor=1, kind='dependency')
+    depends(cx, r8, 'C19', ('R19.4',), 'connection slots are taken, compared, returned on refusal and released once')
 
     # ---------------------------------------------------------------- R20.7 max_joins
     from .C07 import rule_quota
